@@ -82,8 +82,9 @@ Section V2.
   Variable users_default0 : Z.
 
   (* ---------- splitConflictedUnconflicted (stateresolution.go) ---------- *)
+  (* in how many state sets the event is listed (an event a list names twice is in the set once) *)
   Definition count_id (k : bytes) (sets : list (list event)) : nat :=
-    length (filter (fun e => bytes_eqb (e_id e) k) (concat sets)).
+    length (filter (has_event k) sets).
 
   (* eventMap: per (type, state_key) the distinct events in first-seen order *)
   Definition group := (tkey * list event)%type.
@@ -194,26 +195,21 @@ Section V2.
     chain_walk (S (total_refs set + total_refs authmap + length authmap)) authmap
                (concat (map e_auth set)) [].
 
-  (* v2.1: every path origin -> ... -> c with origin and c conflicted, origin in the state set,
-     the steps following auth_events inside authmap; the events on it (looked up in authmap)
-     form the conflicted subgraph. [depth] bounds the length of a path (acyclic: <= |authmap|+1) *)
-  Fixpoint subgraph_walk (depth : nat) (authmap conflicted : list event) (curr : event)
-           (visiting : list bytes) : list event :=
-    let here := if has_event (e_id curr) conflicted
-                then lookup_ids authmap (visiting ++ [e_id curr]) else [] in
-    match depth with
-    | O => here
-    | S d =>
-        fold_left (fun acc k => match find_event k authmap with
-                                | Some a => union_events acc
-                                              (subgraph_walk d authmap conflicted a (visiting ++ [e_id curr]))
-                                | None => acc
-                                end) (e_auth curr) (union_events [] here)
-    end.
+  (* v2.1, the conflicted subgraph of one state set: the auth-map events of the IDs that are
+     reachable (or equal) from a conflicted event of the set and reach (or are) a conflicted
+     event. (The Go code: one walk over the events reachable from the conflicted origins, one
+     memoised answer to "reaches a conflicted event"; before the F81 repair it enumerated the
+     paths.) *)
+  Definition reaches_conflicted (authmap conflicted : list event) (x : event) : bool :=
+    has_event (e_id x) conflicted
+    || existsb (fun y => has_event (e_id y) conflicted) (full_auth_chain authmap [x]).
 
   Definition conflicted_subgraph (authmap conflicted set : list event) : list event :=
     fold_left (fun acc p => if has_event (e_id p) conflicted
-                            then union_events acc (subgraph_walk (S (length authmap)) authmap conflicted p [])
+                            then union_events acc
+                                   (lookup_ids authmap
+                                      (ids_of (filter (reaches_conflicted authmap conflicted)
+                                                      (p :: full_auth_chain authmap [p]))))
                             else acc) set [].
 
   Definition inter_events (a b : list event) : list event :=
@@ -398,7 +394,7 @@ Section V2.
   (* ---------- the drivers ---------- *)
   Definition resolve_tail (authmap : list event) (r0 : rstate) (control others unconflicted : list event)
     : rstate :=
-    let control_sorted := power_order authmap (smap_get (r_state r0) (t_create, [])) control in
+    let control_sorted := power_order authmap (smap_get (r_state r0) (t_create, [])) (dedup_events control) in
     let r1 := auth_and_apply authmap r0 control_sorted in
     let others_sorted := mainline_order authmap (smap_get (r_state r1) (t_power, [])) others in
     let r2 := auth_and_apply authmap r1 others_sorted in
@@ -415,12 +411,15 @@ Section V2.
         let authmap := dedup_events auth_events in
         let conflictedmap := dedup_events conflicted in
         let full := conflicted ++ auth_difference_new v21 authmap conflicted sets in
-        let control := control_events conflictedmap unconflicted full in
-        let others := other_events unconflicted full control in
+        (* v2 leaves the events of the unconflicted state out of the full conflicted set; v2.1,
+           which starts from the empty state, replays them (F77) *)
+        let skip := if v21 then [] else unconflicted in
+        let control := control_events conflictedmap skip full in
+        let others := other_events skip full control in
         let r0 := mkR [] [] in
         if v21 then resolve_tail authmap r0 control others unconflicted
         else
-          let unconflicted' := power_order authmap None unconflicted in
+          let unconflicted' := power_order authmap None (dedup_events unconflicted) in
           resolve_tail authmap (r_apply r0 unconflicted') control others unconflicted'
     end.
 
